@@ -79,7 +79,11 @@ void EpollLoop::runLoop(Mode mode)
 
         for (int i = 0; i < fds; ++i) {
             epoll_event &ev = events.at(i);
-            EpollFdEvent::OnEventCallback(ev.events, ev.data.ptr);
+            //! the shared record may have been released by a callback earlier in this batch
+            bool is_alive = std::any_of(fd_data_map_.begin(), fd_data_map_.end(),
+                [&ev] (const std::pair<const int, EpollFdSharedData*> &item) { return item.second == ev.data.ptr; });
+            if (is_alive)
+                EpollFdEvent::OnEventCallback(ev.events, ev.data.ptr);
         }
 
         //handleRunInLoopFunc();
